@@ -102,6 +102,15 @@ pub fn run(ctx: &Ctx, ev: &mut Ev) {
                 if th && p % 16 == 0 { c.check(ev, GBK, &[a, b, d, e], true); }
             } }
         } }
+        // every range of the four-byte BMP map: both neighbours of every change point, and the middle of every range
+        // (a changed cell of the ranges table moves one whole range, however short)
+        if ev.mine() {
+            let pts = crate::model::gb18030_range_points();
+            let mut ps: Vec<u32> = vec![];
+            for (k, p) in pts.iter().enumerate() { let next = pts.get(k + 1).copied().unwrap_or(39420); for q in [p.saturating_sub(1), *p, *p + 1, (*p + next) / 2, next.saturating_sub(1)] { if q < 39420 { ps.push(q); } } }
+            ps.sort(); ps.dedup();
+            for p in ps { let s = [(p / 12600) as u8 + 0x81, ((p % 12600) / 1260) as u8 + 0x30, ((p % 1260) / 10) as u8 + 0x81, (p % 10) as u8 + 0x30]; c.check(ev, GB18030, &s, true); c.check(ev, GBK, &s, true); }
+        }
         let bset = [0x00u8, 0x2F, 0x30, 0x39, 0x3A, 0x41, 0x7F, 0x80, 0x81, 0xFE, 0xFF];
         for a in [0x81u8, 0x84, 0x90, 0xE3, 0xFE] { for b in bset { if !ev.mine() { continue; } for d in bset { for e in bset { c.check(ev, GB18030, &[a, b, d, e], true); for x in bset { c.check(ev, GB18030, &[a, b, d, e, x], true); if th { c.check(ev, GB18030, &[0x41, a, b, d, e, x, 0x30], true); } } } } } }
         if th { ev.exhaustive("all 1,587,600 well-formed gb18030 four-byte strings"); }
